@@ -496,4 +496,214 @@ finalize_h!(c21_m_finalize_max_f64, 7);
 finalize_h!(c21_m_finalize_min_empty, 8);
 finalize_h!(c21_m_finalize_max_empty, 9);
 
+// ================================================================ carrier instance
+// MIN / MAX / FIRST hold an Option<ScalarValue>. With the real ScalarValue every assignment
+// drags the drop/clone glue of String, Vec<ScalarValue> and Box<DataType> into CBMC
+// (measured: ~9 min per harness). Here the SAME source text — the enum, the whole
+// `impl AccumulatorState` block, compare_scalar_values, scalar_to_f64, scalar_to_i64, all
+// copied verbatim on every run — is compiled against a carrier `ScalarValue` with the same
+// variant names and Copy payloads (R6). Everything the methods decide is unchanged.
+pub mod carr {
+    use crate::planner::AggregateFunction;
+    use arrow::datatypes::DataType;
+    use ordered_float::OrderedFloat;
+
+    #[derive(Clone, Copy, Debug, PartialEq)]
+    pub enum ScalarValue {
+        Null,
+        Boolean(bool),
+        Int8(i8),
+        Int16(i16),
+        Int32(i32),
+        Int64(i64),
+        UInt8(u8),
+        UInt16(u16),
+        UInt32(u32),
+        UInt64(u64),
+        Float32(OrderedFloat<f32>),
+        Float64(OrderedFloat<f64>),
+        Decimal128(i128),
+        Utf8(u8),
+        Date32(i32),
+        Date64(i64),
+        Timestamp(i64),
+        Interval(i64),
+        List(u8),
+    }
+    include!("/verif/kani/gen/kx_c21_enum.rs");
+    include!("/verif/kani/gen/kx_c21_impl.rs");
+    include!("/verif/kani/gen/kx_c21_compare.rs");
+    include!("/verif/kani/gen/kx_c21_to_f64.rs");
+    include!("/verif/kani/gen/kx_c21_to_i64.rs");
+
+    /// an arbitrary non-NULL value of one of four column types (k picks the type)
+    fn any_value(k: u8) -> ScalarValue {
+        match k {
+            0 => ScalarValue::Int64(kani::any()),
+            1 => ScalarValue::Utf8(kani::any()),
+            2 => ScalarValue::Date32(kani::any()),
+            _ => {
+                let f: f64 = kani::any();
+                kani::assume(!f.is_nan());
+                ScalarValue::Float64(OrderedFloat(f))
+            }
+        }
+    }
+    fn any_opt(k: u8) -> Option<ScalarValue> {
+        if kani::any() { Some(any_value(k)) } else { None }
+    }
+    /// the column's order (same-typed values)
+    fn le(a: &ScalarValue, b: &ScalarValue) -> bool {
+        match (a, b) {
+            (ScalarValue::Int64(x), ScalarValue::Int64(y)) => x <= y,
+            (ScalarValue::Utf8(x), ScalarValue::Utf8(y)) => x <= y,
+            (ScalarValue::Date32(x), ScalarValue::Date32(y)) => x <= y,
+            (ScalarValue::Float64(x), ScalarValue::Float64(y)) => x.into_inner() <= y.into_inner(),
+            _ => false,
+        }
+    }
+    fn any_type() -> u8 {
+        let k: u8 = kani::any();
+        kani::assume(k < 4);
+        k
+    }
+
+    /// merge of MIN / MAX partial states: empty is the identity, a value is never lost to an
+    /// empty side, and the result is the smaller / larger of the two. All four column types,
+    /// all combinations of empty / non-empty sides.
+    #[kani::proof]
+    #[kani::unwind(2)]
+    fn c21_c_merge_min_max() {
+        let k = any_type();
+        let (x, y) = (any_opt(k), any_opt(k));
+        let is_min: bool = kani::any();
+        let mut a = if is_min { AccumulatorState::Min(x) } else { AccumulatorState::Max(x) };
+        let b = if is_min { AccumulatorState::Min(y) } else { AccumulatorState::Max(y) };
+        a.merge(&b);
+        let z = match (&a, is_min) {
+            (AccumulatorState::Min(z), true) => *z,
+            (AccumulatorState::Max(z), false) => *z,
+            _ => {
+                assert!(false); // the variant never changes
+                None
+            }
+        };
+        assert!(z.is_some() == (x.is_some() || y.is_some()));
+        match (x, y, z) {
+            (Some(p), None, Some(r)) => assert!(r == p),
+            (None, Some(q), Some(r)) => assert!(r == q),
+            (Some(p), Some(q), Some(r)) => {
+                assert!(r == p || r == q);
+                if is_min {
+                    assert!(le(&r, &p) && le(&r, &q));
+                } else {
+                    assert!(le(&p, &r) && le(&q, &r));
+                }
+            }
+            (None, None, None) => {}
+            _ => assert!(false),
+        }
+        kani::cover!(x.is_some() && y.is_none());
+        kani::cover!(x.is_none() && y.is_some());
+    }
+
+    /// one row through the ScalarValue slow path: NULL changes nothing; a value makes the
+    /// state non-empty and keeps the smaller / larger one.
+    #[kani::proof]
+    #[kani::unwind(2)]
+    fn c21_c_update_min_max() {
+        let k = any_type();
+        let x = any_opt(k);
+        let is_min: bool = kani::any();
+        let mut a = if is_min { AccumulatorState::Min(x) } else { AccumulatorState::Max(x) };
+        let v = if kani::any() { any_value(k) } else { ScalarValue::Null };
+        a.update(&v);
+        let z = match (&a, is_min) {
+            (AccumulatorState::Min(z), true) => *z,
+            (AccumulatorState::Max(z), false) => *z,
+            _ => {
+                assert!(false);
+                None
+            }
+        };
+        if v == ScalarValue::Null {
+            assert!(z == x);
+        } else {
+            assert!(z.is_some());
+            let r = z.unwrap();
+            match x {
+                None => assert!(r == v),
+                Some(p) => {
+                    assert!(r == p || r == v);
+                    if is_min {
+                        assert!(le(&r, &p) && le(&r, &v));
+                    } else {
+                        assert!(le(&p, &r) && le(&v, &r));
+                    }
+                }
+            }
+        }
+        kani::cover!(x.is_some() && v != ScalarValue::Null);
+    }
+
+    /// the typed fast paths agree: update_i64 / update_f64 on MIN / MAX
+    #[kani::proof]
+    #[kani::unwind(2)]
+    fn c21_c_update_fast_min_max() {
+        let is_min: bool = kani::any();
+        if kani::any() {
+            let x = any_opt(0);
+            let mut a = if is_min { AccumulatorState::Min(x) } else { AccumulatorState::Max(x) };
+            let v: i64 = kani::any();
+            a.update_i64(v);
+            let z = match &a {
+                AccumulatorState::Min(z) | AccumulatorState::Max(z) => *z,
+                _ => None,
+            };
+            let want = match x {
+                Some(ScalarValue::Int64(p)) => if is_min { p.min(v) } else { p.max(v) },
+                _ => v,
+            };
+            assert!(z == Some(ScalarValue::Int64(want)));
+        } else {
+            let x = any_opt(3);
+            let mut a = if is_min { AccumulatorState::Min(x) } else { AccumulatorState::Max(x) };
+            let v: f64 = kani::any();
+            kani::assume(!v.is_nan());
+            a.update_f64(v);
+            let z = match &a {
+                AccumulatorState::Min(z) | AccumulatorState::Max(z) => *z,
+                _ => None,
+            };
+            let want = match x {
+                Some(ScalarValue::Float64(p)) => {
+                    let p = p.into_inner();
+                    if is_min { if v < p { v } else { p } } else if v > p { v } else { p }
+                }
+                _ => v,
+            };
+            assert!(matches!(z, Some(ScalarValue::Float64(r)) if r.into_inner() == want));
+        }
+    }
+
+    /// finalize: MIN / MAX are NULL exactly for the empty state, otherwise the held value;
+    /// new() is the empty state.
+    #[kani::proof]
+    #[kani::unwind(2)]
+    fn c21_c_finalize_min_max() {
+        let k = any_type();
+        let x = any_opt(k);
+        let is_min: bool = kani::any();
+        let a = if is_min { AccumulatorState::Min(x) } else { AccumulatorState::Max(x) };
+        let f = if is_min { AggregateFunction::Min } else { AggregateFunction::Max };
+        let out = a.finalize(&f);
+        match x {
+            None => assert!(out == ScalarValue::Null),
+            Some(p) => assert!(out == p),
+        }
+        let fresh = AccumulatorState::new(&f, &DataType::Int64);
+        assert!(fresh.finalize(&f) == ScalarValue::Null);
+    }
+}
+
 include!("/verif/kani/gen/playback_physical_morsel_agg.rs");
